@@ -91,7 +91,7 @@ func verifyFunctions(P *Program, L *Library, keys []string, opt solveOpts) []*Fu
 			}
 			fr.Obls = keep
 		}
-		fr.Prelude = strings.Join(x.C.decls, "\n") + "\n"
+		fr.Prelude = x.prelude()
 		fr.Abstr = sortedKeys(x.abstr)
 		fr.Used = sortedKeys(x.C.used)
 		fr.Warn = sortedKeys(x.C.warnings)
@@ -526,7 +526,7 @@ func runCheck(prop, tier string, seed int) int {
 	}
 	d, n := 0, 0
 	for _, g := range groups {
-		if g.Cover {
+		if g.Cover || (openIDs[g.ID] != nil && len(g.Failed) > 0) {
 			continue
 		}
 		n++
@@ -595,7 +595,25 @@ func writeEvidence(prop, tier string, seed int, pc *PropConfig, frs []*FuncResul
 		undec[u] = true
 	}
 	guards, guardsReach := 0, 0
+	// obligations named by an open known-findings entry are recorded defects: they are listed, not claimed
+	knownObl := map[string]string{}
+	{
+		var known []KnownFinding
+		loadJSON(filepath.Join(verifDir, "known_findings.json"), &known)
+		for _, kf := range known {
+			if kf.Property == prop && kf.Status == "open" {
+				for _, id := range strings.Split(kf.Obligation, ",") {
+					knownObl[strings.TrimSpace(id)] = kf.What
+				}
+			}
+		}
+	}
+	var knownList []map[string]string
 	for _, g := range groups {
+		if what, ok := knownObl[g.ID]; ok && len(g.Failed) > 0 {
+			knownList = append(knownList, map[string]string{"obligation": g.ID, "status": "fails as recorded (known finding, not claimed)", "what": what})
+			continue
+		}
 		if g.Cover {
 			// vacuity guard (reachability of a return / of a clause's antecedent): not a proof obligation
 			guards++
@@ -666,6 +684,7 @@ func writeEvidence(prop, tier string, seed int, pc *PropConfig, frs []*FuncResul
 		"functions_under_contract": funcs,
 		"obligation_list":          obls,
 		"undecided":                undecided,
+		"known_findings":           knownList,
 		"vacuity_guards":           map[string]int{"posed": guards, "not_refuted": guardsReach},
 		"abstracted_constructs":    sortedKeys(abstr),
 		"solver_seconds_total":     round3(solverSecs),
